@@ -159,3 +159,14 @@ CLAIMS['C16'] = dict(
          'rotate amounts, MD5/SHA-1 initial words, SHA-1 round constants and the MD5 padding vector equal the standards; SHA-1 padding is evaluated abstractly for all 64 fill levels (0x80, zeros, one or two blocks, big-endian bit length); '
          'key::from_hex returns the nibble for exactly [0-9A-Fa-f], set_hex rejects odd lengths and accepts exactly hex digits.',
     note='Trusted: OpenSSL SHA-2 and AES primitives, the standard tables computed in rules/C16.py. Not decided: digest values under arbitrary chunking (process_block arithmetic), CBC round trip.')
+
+CLAIMS['C02'] = dict(
+    category='other',
+    engine='cppcms-facts + vlib (linear, linbound, absint) rules',
+    technique='static analysis: handler-linearity dataflow, who-throws, gate-edge domination for sign/sentinel/type guards, linear bounds (Fourier-Motzkin) under a declared cursor invariant, abstract interpretation of the cookie scanner',
+    text='Totality over all byte strings is not claimed. Decided on every path: each completion handler (56 tokens in cgi_api/http_api/scgi_api/fastcgi_api/http_context/tcp_cache_server and the acceptors) is consumed at most once, so a request is completed / shown to the application at most once '
+         '(this rule finds both FastCGI double-completion defects fixed in /repo); no throw expression exists in the 171 member functions of connection classes and their callback structs; every peer-declared length (atoi/atoll results, env_content_length) is known non-negative '
+         'before it sizes a buffer (finds the negative Content-Length defect); strlen-style walks over receive buffers are dominated by a NUL sentinel store (finds the SCGI over-read); FastCGI record readers, both parse_pairs, read_len, on_header_read and SCGI on_first_read '
+         'are proved in bounds (88 linear obligations) under the cache cursor invariant; error pages only for a non-zero status and only if nothing was written, the connection is then marked unusable; application::main runs inside catch(...); FastCGI continuations report success only for the expected record type, '
+         'version-1 BEGIN_REQUEST and responder role; the cookie scanner advances on every input of length <= 2 (quick) / 3 (thorough) and is called on every loop turn, so no header can stall the event loop.',
+    note='Assumes the fastcgi cursor invariant 0 <= cache_start_ <= cache_end_ <= cache_.size() at entry of the record readers and the 16-byte first-read buffer of SCGI (both stated in the evidence). Not decided: HTTP header parser state machine, chunked input, half-close timing, isolation between connections beyond "no exception / no unsafe read".')
